@@ -1,5 +1,6 @@
 /-
-  Proofs about the model of column_track (continued): the track of the reversed line.
+  Proofs about the model of column_track (continued): the track of the reversed line; soundness of
+  the decidable hypothesis checkers of Model/Track.lean.
 -/
 import PyTough.Proofs.LocateTrack3
 
@@ -254,6 +255,104 @@ theorem trackLoop_mem_iff {g : Geo} {a b : Pt}
                 · exact ⟨some s0, hseg⟩
                 · exact i2 ci hci hlir
 
+theorem lpiT_one {poly : Poly} {a b : Pt} {c : Cross} {pts : List Cross} (hcs : crossings poly a b = [c])
+    (h : linePolygonIntersectionsT poly a b = .ok pts) : pts = [c] := by
+  unfold linePolygonIntersectionsT at h
+  rw [hcs] at h
+  simp only [roundAll] at h
+  split at h
+  · cases h
+  · rename_i uniq hu
+    injection h with h; subst h
+    split at hu
+    · rename_i k _
+      injection hu with hu; subst hu
+      simp [insertUnique]
+    · cases hu
+
+theorem longEnough_congr {poly : Poly} {L2 L2' ti tu ti' tu' : Rat} (hL : L2 = L2')
+    (h : (tu.abs - ti.abs) * (tu.abs - ti.abs) = (tu'.abs - ti'.abs) * (tu'.abs - ti'.abs)) :
+    longEnough poly L2 ti tu = longEnough poly L2' ti' tu' := by
+  unfold longEnough
+  simp only [h, hL]
+
+/-- a column with a single crossing (the start or end column, or a column touched at one point)
+    gives the same entry, flipped, for the reversed line -/
+theorem colSeg_one_reverse {g : Geo} {a b : Pt} {ci : Nat} {c : Cross} (hcs : crossings (g.poly ci) a b = [c])
+    (h0 : 0 ≤ c.t) (h1 : c.t ≤ 1) (isS isE : Bool) (hse : ¬ (isS = true ∧ isE = true)) {r r' : Option Seg}
+    (h : colSeg g a b ci isS isE = .ok r) (h' : colSeg g b a ci isE isS = .ok r') : r' = r.map flipSeg := by
+  have hcs' : crossings (g.poly ci) b a = [Cross.rev c] := by rw [crossings_reverse, hcs]; rfl
+  have ac : c.t.abs = c.t := Rat.abs_of_nonneg h0
+  have ac' : (1 - c.t).abs = 1 - c.t := Rat.abs_of_nonneg (by linarith)
+  have a0 : (0 : Rat).abs = 0 := Rat.abs_of_nonneg (le_refl 0)
+  have a1 : (1 : Rat).abs = 1 := Rat.abs_of_nonneg (by decide +kernel)
+  unfold colSeg at h h'
+  cases hl : linePolygonIntersectionsT (g.poly ci) a b with
+  | unstable w => rw [hl] at h; cases h
+  | ok pts =>
+    cases hl' : linePolygonIntersectionsT (g.poly ci) b a with
+    | unstable w => rw [hl'] at h'; cases h'
+    | ok pts' =>
+      rw [hl] at h; rw [hl'] at h'
+      have e := lpiT_one hcs hl
+      have e' := lpiT_one hcs' hl'
+      subst e; subst e'
+      simp only [List.getLast?_singleton, Option.getD_some] at h h'
+      cases isS with
+      | true =>
+        cases isE with
+        | true => exact absurd ⟨rfl, rfl⟩ hse
+        | false =>
+          simp only [if_true, Bool.false_eq_true, if_false] at h h'
+          have hc := longEnough_congr (poly := g.poly ci) (distSq_comm b a)
+            (show ((1 : Rat).abs - (Cross.rev c).t.abs) * ((1 : Rat).abs - (Cross.rev c).t.abs) = (c.t.abs - (0 : Rat).abs) * (c.t.abs - (0 : Rat).abs) by
+              simp only [Cross.rev, a0, a1, ac, ac']; ring)
+          rw [hc] at h'
+          cases hle : longEnough (g.poly ci) (distSq a b) 0 c.t with
+          | unstable w => rw [hle] at h; cases h
+          | ok v =>
+            rw [hle] at h h'
+            cases v with
+            | true =>
+              injection h with h; injection h' with h'; subst h; subst h'
+              simp [flipSeg, Cross.rev]
+            | false =>
+              injection h with h; injection h' with h'; subst h; subst h'; rfl
+      | false =>
+        cases isE with
+        | true =>
+          simp only [if_true, Bool.false_eq_true, if_false] at h h'
+          have hc := longEnough_congr (poly := g.poly ci) (distSq_comm b a)
+            (show ((Cross.rev c).t.abs - (0 : Rat).abs) * ((Cross.rev c).t.abs - (0 : Rat).abs) = ((1 : Rat).abs - c.t.abs) * ((1 : Rat).abs - c.t.abs) by
+              simp only [Cross.rev, a0, a1, ac, ac']; ring)
+          rw [hc] at h'
+          cases hle : longEnough (g.poly ci) (distSq a b) c.t 1 with
+          | unstable w => rw [hle] at h; cases h
+          | ok v =>
+            rw [hle] at h h'
+            cases v with
+            | true =>
+              injection h with h; injection h' with h'; subst h; subst h'
+              simp [flipSeg, Cross.rev]
+            | false =>
+              injection h with h; injection h' with h'; subst h; subst h'; rfl
+        | false =>
+          simp only [Bool.false_eq_true, if_false] at h h'
+          have hc := longEnough_congr (poly := g.poly ci) (distSq_comm b a)
+            (show ((Cross.rev c).t.abs - (Cross.rev c).t.abs) * ((Cross.rev c).t.abs - (Cross.rev c).t.abs) = (c.t.abs - c.t.abs) * (c.t.abs - c.t.abs) by
+              ring)
+          rw [hc] at h'
+          cases hle : longEnough (g.poly ci) (distSq a b) c.t c.t with
+          | unstable w => rw [hle] at h; cases h
+          | ok v =>
+            rw [hle] at h h'
+            cases v with
+            | true =>
+              injection h with h; injection h' with h'; subst h; subst h'
+              simp [flipSeg, Cross.rev]
+            | false =>
+              injection h with h; injection h' with h'; subst h; subst h'; rfl
+
 theorem CrossedLong_rev {g : Geo} {a b : Pt} {ci : Nat} (h : CrossedLong g a b ci) : CrossedLong g b a ci := by
   obtain ⟨c1, c2, hcs, h10, h11, h20, h21, hlong⟩ := h.two
   refine ⟨⟨Cross.rev c1, Cross.rev c2, by rw [crossings_reverse, hcs]; rfl, ?_, ?_, ?_, ?_, ?_⟩, h.side⟩
@@ -274,7 +373,8 @@ structure RevHyp (g : Geo) (a b : Pt) : Prop where
   uniqueB : UniqueAt g b
   boxSym : ∀ ci, ci < g.ncols → lineIntersectsRectangle (g.bbox ci) a b = lineIntersectsRectangle (g.bbox ci) b a
   clean : ∀ ci, ci < g.ncols → lineIntersectsRectangle (g.bbox ci) a b = some true →
-    crossings (g.poly ci) a b = [] ∨ CrossedLong g a b ci
+    crossings (g.poly ci) a b = [] ∨ CrossedLong g a b ci ∨
+    ∃ c, crossings (g.poly ci) a b = [c] ∧ 0 ≤ c.t ∧ c.t ≤ 1
 
 theorem RevHyp.symm {g : Geo} {a b : Pt} (h : RevHyp g a b) : RevHyp g b a where
   notInOne := fun c hc => h.notInOne c ⟨hc.2, hc.1⟩
@@ -282,9 +382,11 @@ theorem RevHyp.symm {g : Geo} {a b : Pt} (h : RevHyp g a b) : RevHyp g b a where
   uniqueB := h.uniqueA
   boxSym := fun ci hci => (h.boxSym ci hci).symm
   clean := fun ci hci hl => by
-    rcases h.clean ci hci (by rw [h.boxSym ci hci]; exact hl) with hn | hc
+    rcases h.clean ci hci (by rw [h.boxSym ci hci]; exact hl) with hn | hc | ⟨c, hc, h0, h1⟩
     · left; rw [crossings_reverse, hn]; rfl
-    · right; exact CrossedLong_rev hc
+    · right; left; exact CrossedLong_rev hc
+    · right; right
+      exact ⟨Cross.rev c, by rw [crossings_reverse, hc]; rfl, by simp only [Cross.rev]; linarith, by simp only [Cross.rev]; linarith⟩
 
 theorem track_reverse_imp {g : Geo} {a b : Pt} {T T' : List Seg} (hyp : RevHyp g a b)
     (h : columnTrack g a b = .ok T) (h' : columnTrack g b a = .ok T') :
@@ -301,7 +403,7 @@ theorem track_reverse_imp {g : Geo} {a b : Pt} {T T' : List Seg} (hyp : RevHyp g
   · cases hnil
   · have hlt : ci < g.ncols := List.mem_range.mp hci
     have hlir' : lineIntersectsRectangle (g.bbox ci) b a = some true := by rw [← hyp.boxSym ci hlt]; exact hlir
-    rcases hyp.clean ci hlt hlir with hn | hc
+    rcases hyp.clean ci hlt hlir with hn | hc | ⟨c, hc1, hc0, hc1'⟩
     · rw [colSeg_nil hn] at hseg; cases hseg
     · obtain ⟨c1, c2, hcs, h10, h11, h20, h21, hlong⟩ := hc.two
       have hv := colSeg_value hcs h10 h11 h20 h21 hc.side hlong _ _ hseg
@@ -335,6 +437,10 @@ theorem track_reverse_imp {g : Geo} {a b : Pt} {T T' : List Seg} (hyp : RevHyp g
         intro hb; exact hyp.notInOne ci hb)] at hv'
       rw [hv', ← hv] at hr'
       exact (hmem' _).mpr ((m'.1 _).mpr (Or.inr ⟨ci, hci, hlir', hr'⟩))
+    · obtain ⟨r', hr'⟩ := m'.2 ci hci hlir'
+      have := colSeg_one_reverse hc1 hc0 hc1' _ _ (fun hb => hyp.notInOne ci hb) hseg hr'
+      rw [this] at hr'
+      exact (hmem' _).mpr ((m'.1 _).mpr (Or.inr ⟨ci, hci, hlir', hr'⟩))
 
 /-- **(4c) direction independence**: under `RevHyp`, the track of the reversed line consists of the
     same columns with the same entry/exit points exchanged (as sets of entries) -/
@@ -348,5 +454,83 @@ theorem track_reverse {g : Geo} {a b : Pt} {T T' : List Seg} (hyp : RevHyp g a b
     have := track_reverse_imp hyp.symm h' h _ hs
     rw [flipSeg_flipSeg] at this
     exact this
+
+/-! ## 6. the decidable checkers imply the hypotheses -/
+
+theorem crossedLongB_sound {g : Geo} {a b : Pt} {ci : Nat} (h : crossedLongB g a b ci = true) : CrossedLong g a b ci := by
+  unfold crossedLongB at h
+  split at h
+  · rename_i c1 c2 hcs
+    simp only [Bool.and_eq_true, decide_eq_true_eq] at h
+    obtain ⟨⟨⟨⟨⟨h1, h2⟩, h3⟩, h4⟩, h5⟩, h6⟩ := h
+    exact ⟨⟨c1, c2, hcs, h1, h2, h3, h4, h5⟩, h6⟩
+  · cases h
+
+theorem uniqueAtB_sound {g : Geo} {p : Pt} (h : uniqueAtB g p = true) : UniqueAt g p := by
+  unfold uniqueAtB at h
+  simp only [decide_eq_true_eq] at h
+  intro c1 c2 h1 h2
+  have m1 : c1 ∈ (List.range g.ncols).filter fun c => g.containsPoint c p :=
+    List.mem_filter.mpr ⟨List.mem_range.mpr (containsPoint_lt h1), h1⟩
+  have m2 : c2 ∈ (List.range g.ncols).filter fun c => g.containsPoint c p :=
+    List.mem_filter.mpr ⟨List.mem_range.mpr (containsPoint_lt h2), h2⟩
+  generalize (List.range g.ncols).filter (fun c => g.containsPoint c p) = l at h m1 m2
+  match l, h, m1, m2 with
+  | [x], _, m1, m2 =>
+    simp only [List.mem_singleton] at m1 m2
+    rw [m1, m2]
+  | x :: y :: t, h, _, _ => simp only [List.length_cons] at h; omega
+
+theorem notInOneB_sound {g : Geo} {a b : Pt} (h : notInOneB g a b = true) :
+    ∀ c, ¬ (g.containsPoint c a = true ∧ g.containsPoint c b = true) := by
+  unfold notInOneB at h
+  rw [List.all_eq_true] at h
+  intro c ⟨h1, h2⟩
+  have := h c (List.mem_range.mpr (containsPoint_lt h1))
+  simp [h1, h2] at this
+
+theorem revHypB_sound {g : Geo} {a b : Pt} (h : revHypB g a b = true) : RevHyp g a b := by
+  unfold revHypB at h
+  simp only [Bool.and_eq_true] at h
+  obtain ⟨⟨⟨⟨h1, h2⟩, h3⟩, h4⟩, h5⟩ := h
+  refine ⟨notInOneB_sound h1, uniqueAtB_sound h2, uniqueAtB_sound h3, ?_, ?_⟩
+  · intro ci hci
+    unfold boxSymB at h4
+    rw [List.all_eq_true] at h4
+    have := h4 ci (List.mem_range.mpr hci)
+    simpa using this
+  · intro ci hci hl
+    unfold cleanB at h5
+    rw [List.all_eq_true] at h5
+    have := h5 ci (List.mem_range.mpr hci)
+    simp only [hl, beq_self_eq_true, Bool.not_true, Bool.false_or, Bool.or_eq_true, List.isEmpty_iff] at this
+    rcases this with (h | h) | h
+    · exact Or.inl h
+    · exact Or.inr (Or.inl (crossedLongB_sound h))
+    · right; right
+      unfold oneCrossB at h
+      split at h
+      · rename_i c hc
+        simp only [Bool.and_eq_true, decide_eq_true_eq] at h
+        exact ⟨c, hc, h.1, h.2⟩
+      · cases h
+
+theorem orderedB_sound : ∀ (l : List Seg) (lo : Rat), orderedB lo l = true → Ordered lo l := by
+  intro l
+  induction l with
+  | nil => intro lo h; simpa [orderedB, Ordered] using h
+  | cons s r ih =>
+    intro lo h
+    simp only [orderedB, Bool.and_eq_true, decide_eq_true_eq] at h
+    exact ⟨h.1.1, h.1.2, ih _ h.2⟩
+
+/-- (for computing examples) when the loop's list is already sorted, `column_track` returns it -/
+theorem columnTrack_of_sorted {g : Geo} {a b : Pt} {st : TState}
+    (h : trackLoop g a b (List.range g.ncols) {} = .ok st) (ht : sortTie st.track = false)
+    (hs : st.track.Pairwise fun s s' => decide (s.tin ≤ s'.tin) = true) : columnTrack g a b = .ok st.track := by
+  unfold columnTrack
+  rw [h]
+  simp only [ht, Bool.false_eq_true, if_false]
+  rw [List.mergeSort_of_pairwise hs]
 
 end Proofs.Track
